@@ -3,7 +3,7 @@
    rrun B l = one direction of a relayed connection after the history l of the source sending, half-closing, and copy
    rounds whose reads return any number of bytes (Model/Relay.v); B = the copy buffer's size. *)
 From Coq Require Import List NArith.
-From Sam Require Import Model.Bytes Model.Relay Proofs.RelayProofs.
+From Sam Require Import Gen.Tables Model.Bytes Model.Relay Proofs.RelayProofs.
 Import ListNotations.
 Open Scope N_scope.
 
@@ -26,6 +26,10 @@ Proof. exact copy_progress. Qed.
 Theorem C05_eof : forall B d k, eof_delivered d = false -> unread d = [] -> src_closed d = true -> eof_delivered (rstep B d (RCopy k)) = true.
 Proof. exact copy_eof. Qed.
 Print Assumptions C05_progress.
+
+(* the copy buffer of the processor (regenerated from proc/tcp/proc.go) can hold at least one byte, so C05_progress applies *)
+Theorem C05_buffer : 1 <= tcp_buf_size.
+Proof. exact tcp_buf_ok. Qed.
 
 (* half-close: what happens in one direction (including its end) does not touch the other *)
 Theorem C05_directions_independent : forall B c2b b2c extra, snd (both B (c2b ++ extra) b2c) = snd (both B c2b b2c).
